@@ -469,10 +469,74 @@ class FormulTranslator:
         self.mesh = {'line': meth['_process_loop'].lineno, 'credit_fwd': signs[0], 'credit_bwd': signs[1],
                      'vs_sign': sv, 'pas_sign': sp_, 'rev_fwd': rev_fwd, 'acc': acc}
 
+    # ---- state-space substitution model -------------------------------------------------
+    def translate_ss(self):
+        import warnings
+        self.cur = 'lcapy/mnacpts.py'
+        t = open(os.path.join(self.repo, 'lcapy', 'mnacpts.py')).read()
+        self.sha['mnacpts.py'] = hashlib.sha256(t.encode()).hexdigest()
+        with warnings.catch_warnings():
+            warnings.simplefilter('ignore')
+            tree = ast.parse(t)
+        cl = {n.name: n for n in tree.body if isinstance(n, ast.ClassDef)}
+        res = {}
+        for cn, prefix, var in (('L', 'I_', 'i'), ('C', 'V_', 'v')):
+            if cn not in cl:
+                raise Untranslatable('lcapy/mnacpts.py: class %s not found' % cn)
+            fn = [n for n in cl[cn].body if isinstance(n, ast.FunctionDef) and n.name == '_ss_model']
+            if not fn:
+                raise Untranslatable('lcapy/mnacpts.py: %s._ss_model not found' % cn)
+            b = [x for x in fn[0].body if not is_doc(x)]
+            if len(b) != 1 or not isinstance(b[0], ast.Return):
+                self.fail(fn[0], 'unsupported body of _ss_model')
+            tx = src(b[0].value)
+            pos = "self._netmake_variant('%s', args='%s_%%s(t)' %% self.relname)" % (prefix, var)
+            neg = "self._netmake_variant('%s', args='-%s_%%s(t)' %% self.relname)" % (prefix, var)
+            if tx == pos:
+                res[cn + '_src'] = '1'
+            elif tx == neg:
+                res[cn + '_src'] = '(fopp 1)'
+            else:
+                self.fail(b[0], 'unsupported substitution model')
+        for cn in ('V', 'I'):
+            fn = [n for n in cl[cn].body if isinstance(n, ast.FunctionDef) and n.name == '_ss_model'] if cn in cl else []
+            want = 'return self._netmake(args=self.cpt.%s, ignore_keyword=True)' % ('voc' if cn == 'V' else 'isc')
+            if not fn or [src(x) for x in fn[0].body if not is_doc(x)] != [want]:
+                raise Untranslatable('lcapy/mnacpts.py: unexpected %s._ss_model' % cn)
+        base = [n for n in cl['Cpt'].body if isinstance(n, ast.FunctionDef) and n.name == '_ss_model'] if 'Cpt' in cl else []
+        if not base or [src(x) for x in base[0].body if not is_doc(x)] != ['return self._copy()']:
+            raise Untranslatable('lcapy/mnacpts.py: unexpected Cpt._ss_model')
+        # StateSpaceMaker.from_circuit: which quantities of the substituted circuit become dx/dt and x
+        self.cur = 'lcapy/statespacemaker.py'
+        t = open(os.path.join(self.repo, 'lcapy', 'statespacemaker.py')).read()
+        self.sha['statespacemaker.py'] = hashlib.sha256(t.encode()).hexdigest()
+        tree = ast.parse(t)
+        loops = [n for n in ast.walk(tree) if isinstance(n, ast.For) and src(n.iter) == 'inductors + capacitors']
+        if len(loops) != 1:
+            raise Untranslatable('lcapy/statespacemaker.py: loop over inductors + capacitors not found')
+        lp = loops[0]
+        if src(lp.body[0]) != 'name = cpt_map[elt.name]' or not isinstance(lp.body[1], ast.If) or src(lp.body[1].test) != 'isinstance(elt, L)':
+            self.fail(lp, 'unexpected state-variable loop')
+        lb = [src(x) for x in lp.body[1].body]
+        cb = [src(x) for x in lp.body[1].orelse]
+        if lb[0] != 'expr = sscct[name].v / elt.cpt.L' or lb[2] != 'x0 = elt.cpt.i0':
+            self.fail(lp.body[1], 'unexpected inductor state equations')
+        res['L_var'] = {'var = -sscct[name].isc': '(fopp 1)', 'var = sscct[name].isc': '1'}.get(lb[1])
+        if cb[0] != 'expr = current_sign(sscct[name].i / elt.cpt.C, True)' or cb[2] != 'x0 = elt.cpt.v0':
+            self.fail(lp.body[1], 'unexpected capacitor state equations')
+        res['C_var'] = {'var = sscct[name].voc': '1', 'var = -sscct[name].voc': '(fopp 1)'}.get(cb[1])
+        if res['L_var'] is None or res['C_var'] is None:
+            self.fail(lp.body[1], 'unexpected state variable')
+        rest = [src(x) for x in lp.body[2:]]
+        if rest != ['dotx_exprs.append(expr)', 'statevars.append(var)', 'statenames.append(name)', 'initialvalues.append(x0)']:
+            self.fail(lp, 'unexpected bookkeeping in the state-variable loop')
+        self.ss = res
+
     def translate_all(self):
         self.translate_leaf()
         self.translate_nodal()
         self.translate_mesh()
+        self.translate_ss()
         return self
 
 
@@ -501,8 +565,13 @@ def emit(tr):
     rev = 'fwd' if m['rev_fwd'] else 'negb fwd'
     out.append('Definition mesh_term (is_vs fwd : bool) (veq_val : K) : K :=\n  let v := if is_vs then %sveq_val else %sveq_val in\n'
                '  let v := if %s then - v else v in %sv.\n' % ('' if m['vs_sign'] > 0 else '- ', '' if m['pas_sign'] > 0 else '- ', rev, '' if m['acc'] > 0 else '- '))
+    x = tr.ss
+    out.append('(* L._ss_model / C._ss_model (mnacpts.py) and StateSpaceMaker.from_circuit: value of the substituted source as a\n'
+               '   multiple of the state symbol, and the state variable as a multiple of that source value *)')
+    out.append('Definition ss_L_src : K := %s.\nDefinition ss_L_var : K := %s.\nDefinition ss_C_src : K := %s.\nDefinition ss_C_var : K := %s.\n' % (
+        x['L_src'], x['L_var'], x['C_src'], x['C_var']))
     out.append('End Gen.')
-    for nm in names + ['nodal_contrib', 'nodal_vsrc', 'mesh_credit_fwd', 'mesh_credit_bwd', 'mesh_term']:
+    for nm in names + ['nodal_contrib', 'nodal_vsrc', 'mesh_credit_fwd', 'mesh_credit_bwd', 'mesh_term', 'ss_L_src', 'ss_L_var', 'ss_C_src', 'ss_C_var']:
         out.append('Arguments %s {K}.' % nm)
     return '\n'.join(out) + '\n'
 
